@@ -5,7 +5,9 @@ import MuscleModel.Conc.ProofsRCInv
 
 Statements only (proofs call lemmas of `MuscleModel/Conc/Proofs*.lean`).  Every theorem quantifies over **all** thread
 programs (any number of threads, any finite sequences of new-heap / obtain-from-pool / copy / `SetRef` / `Reset` /
-swap / hand-off / payload write / const-cast round trip), **all** pool parameters (`N` = objects per slab ≥ 1,
+swap / hand-off / payload write / const-cast round trip / setting, clearing and following an object's own `next`
+reference (linked lists, with the cascading release of a chain) / non-counting `Ref`s made, promoted, demoted and
+neutralized), **all** pool parameters (`N` = objects per slab ≥ 1,
 `maxPool`), any numbers `L`, `G` of private and global slots, and **every** schedule: `Reachable … c` = "`c` is
 reachable from the initial configuration by some sequence of enabled events", where one event is one atomic step of
 one thread (one `AtomicCounter` operation, one critical section of the pool's `_mutex`, one plain local action).
@@ -24,8 +26,9 @@ theorem driver_runs_are_reachable (N maxPool L G : Nat) (progs : List (List Op))
   machine.reach_runTail n fuel (machine.reach_runSched Machine.Reach.init evs)
 
 /-- **The count is the number of references.**  In every reachable configuration the reference count of every object
-equals the number of `Ref`s that point to it: private slots of all threads + global slots + references whose
-decrement is still pending (`refs`). -/
+equals the number of reference-counting `Ref`s that point to it: private slots of all threads + global slots +
+references whose decrement is still pending + `next` members of other objects (`refs`; by `links_are_between_live_objects`
+the holders of those `next` members are exactly alive objects).  Non-counting `Ref`s do not count. -/
 theorem count_is_refs {N maxPool L G progs c} (hN : 0 < N) (h : Reachable N maxPool L G progs c) (o : Oid) :
     (c.obj o).count = refs c o :=
   (reach_inv hN h).cnt o
@@ -36,10 +39,28 @@ theorem never_early {N maxPool L G progs c} (hN : 0 < N) (h : Reachable N maxPoo
     (hheld : 0 < refs c o) : (c.obj o).alive = true :=
   (reach_inv hN h).alive o hheld
 
-/-- `never_early`, spelled out for a `Ref` slot of a thread -/
+/-- `never_early`, spelled out for a reference-counting `Ref` slot of a thread -/
 theorem never_early_slot {N maxPool L G progs c} (hN : 0 < N) (h : Reachable N maxPool L G progs c) (t : Tid) (th : Th) (a : Nat)
-    (o : Oid) (ht : c.ths[t]? = some th) (hs : slotOf th a = some o) : (c.obj o).alive = true ∧ 0 < (c.obj o).count :=
+    (o : Oid) (ht : c.ths[t]? = some th) (hs : slotOf th a = some (o, true)) : (c.obj o).alive = true ∧ 0 < (c.obj o).count :=
   slot_alive (reach_inv hN h) ht hs
+
+/-- `never_early` for the reference an object holds itself: every `next` member belongs to an alive object and
+references an alive object (so "count = slots + globals + pending decrements + `next` members of ALIVE objects"), and
+an object holds at most one. -/
+theorem links_are_between_live_objects {N maxPool L G progs c} (hN : 0 < N) (h : Reachable N maxPool L G progs c) :
+    (∀ x n, (x, n) ∈ c.links → (c.obj x).alive = true ∧ (c.obj n).alive = true ∧ 0 < (c.obj n).count) ∧
+    (c.links.map (·.1)).Nodup := by
+  have hi := reach_inv hN h
+  refine ⟨fun x n hm => ?_, hi.linksND⟩
+  have hp : 0 < refs c n := by have := cntL_pos hm; have := cntL_le_refs c n; omega
+  exact ⟨hi.linkAlive x n hm, hi.alive n hp, by rw [hi.cnt n]; exact hp⟩
+
+/-- a released object references nothing any more (its `next` member was given up when it was reset / destroyed) -/
+theorem released_holds_nothing {N maxPool L G progs c} (hN : 0 < N) (h : Reachable N maxPool L G progs c) (x : Oid)
+    (hd : (c.obj x).alive = false) : nextOf c.links x = none := by
+  cases hn : nextOf c.links x with
+  | none => rfl
+  | some n => have := (reach_inv hN h).linkAlive x n (nextOf_mem hn); rw [hd] at this; cases this
 
 /-- **Released exactly once.**  For every object, releases (destructions / returns to the pool) never outnumber
 hand-outs, an object that is alive has exactly one release outstanding, a heap object is released at most once ever,
@@ -124,6 +145,26 @@ theorem heap_never_pooled {N maxPool L G progs c} (hN : 0 < N) (h : Reachable N 
   have := hi.out (.heap k)
   exact ⟨hi.heapMgr k, by simpa [aliveN, outBitO] using this⟩
 
+/-- **Assigning a `Ref` from a reference held inside the object it points to** (`a = a->next`, /repo commit 3dba531).
+At the step that increments the successor's count, the successor `n` is alive (the old head `o`, still referenced by
+slot `a`, holds it); after the step `n` is alive with one more reference, slot `a` counts `n`, and the release of the
+old head is queued *behind* the increment.  So the object formerly in `a->next` is alive after `a := a->next` iff it was
+before — and by `never_early_slot` it stays alive as long as slot `a` holds it. -/
+theorem assign_from_owned_ref_safe {N maxPool L G progs c} (hN : 0 < N) (h : Reachable N maxPool L G progs c) (t : Tid) (th : Th)
+    (a : Nat) (o n : Oid) (more : List Act) (ht : c.ths[t]? = some th) (htodo : th.todo = .incPop a :: more)
+    (hsa : slotOf th a = some (o, true)) (hn : nextOf c.links o = some n) :
+    (c.obj n).alive = true ∧
+    ∃ c', machine.step c (.run t) = some (c', []) ∧ (c'.obj n).alive = true ∧ (c'.obj n).count = (c.obj n).count + 1 ∧
+      c'.ths[t]? = some { th with slots := th.slots.set a (some (n, true)), todo := .dec o :: more } := by
+  have hi := reach_inv hN h
+  have hal := (links_are_between_live_objects hN h).1 o n (nextOf_mem hn)
+  have htl : t < c.ths.length := by rcases List.getElem?_eq_some_iff.mp ht with ⟨hl, _⟩; exact hl
+  refine ⟨hal.2.1, { c with obj := bump c n, ths := c.ths.set t { th with slots := th.slots.set a (some (n, true)), todo := .dec o :: more } },
+    by simp [machine, step, ht, htodo, doAct, hsa, hn], ?_, ?_, ?_⟩
+  · simp [bump, hal.2.1]
+  · simp [bump]
+  · simp [htl]
+
 /-! ## Non-vacuity: the situations the theorems talk about are reachable -/
 
 def run (N maxPool : Nat) (progs : List (List Op)) (evs : List Nat) : Cfg :=
@@ -140,16 +181,46 @@ example : ∃ c, Reachable 2 0 3 2 [[.newPool 0, .copy 1 0, .xchg 1 0], [.xchg 0
 /-- an object is released (once) after its last reference went away, and then handed out again in the default state -/
 example : ∃ c, Reachable 2 0 3 2 [[.newPool 0, .write 0, .reset 0, .newPool 1]] c ∧
     (c.obj (.node 0 1)).rel = 1 ∧ (c.obj (.node 0 1)).acq = 2 ∧ (c.obj (.node 0 1)).alive = true ∧ (c.obj (.node 0 1)).val = 0 :=
-  ⟨run 2 0 [[.newPool 0, .write 0, .reset 0, .newPool 1]] [0, 0, 0, 0, 0, 0, 0, 0, 0], run_reach _ _ _ _, by decide, by decide, by decide, by decide⟩
+  ⟨run 2 0 [[.newPool 0, .write 0, .reset 0, .newPool 1]] [0, 0, 0, 0, 0, 0, 0, 0, 0, 0], run_reach _ _ _ _, by decide, by decide, by decide, by decide⟩
 
 /-- a slab deletion is pending (outside the lock) in a reachable configuration -/
 example : ∃ c, Reachable 1 0 3 2 [[.newPool 0, .newPool 1, .reset 0, .reset 1]] c ∧
     (c.ths[0]?.map fun th => th.todo.any fun a => match a with | .delSlab _ => true | _ => false) = some true :=
-  ⟨run 1 0 [[.newPool 0, .newPool 1, .reset 0, .reset 1]] [0, 0, 0, 0, 0, 0, 0, 0, 0, 0, 0, 0], run_reach _ _ _ _, by decide⟩
+  ⟨run 1 0 [[.newPool 0, .newPool 1, .reset 0, .reset 1]] [0, 0, 0, 0, 0, 0, 0, 0, 0, 0, 0, 0, 0], run_reach _ _ _ _, by decide⟩
 
 /-- a heap object is destroyed exactly once -/
 example : ∃ c, Reachable 1 0 3 2 [[.newHeap 0, .ccast 1 0, .reset 0, .reset 1]] c ∧
     (c.obj (.heap 0)).rel = 1 ∧ (c.obj (.heap 0)).alive = false :=
   ⟨run 1 0 [[.newHeap 0, .ccast 1 0, .reset 0, .reset 1]] [0, 0, 0, 0, 0, 0, 0, 0, 0, 0, 0, 0, 0, 0], run_reach _ _ _ _, by decide, by decide⟩
+
+/-- a linked list head -> second whose only other reference to `second` is `head->next`; after the pop `a = a->next`
+(the order of /repo commit 3dba531) the head is destroyed and `second` is alive with count 1, held by the slot -/
+def popProg : List (List Op) := [[.newHeap 0, .newHeap 1, .link 0 1, .reset 1, .pop 0]]
+
+example : ∃ c, Reachable 1 0 3 2 popProg c ∧ (c.obj (.heap 0)).alive = false ∧ (c.obj (.heap 1)).alive = true ∧
+    (c.obj (.heap 1)).count = 1 ∧ (c.ths[0]?.map fun th => slotOf th 0) = some (some (.heap 1, true)) :=
+  ⟨run 1 0 popProg [0, 0, 0, 0, 0, 0, 0, 0, 0, 0, 0, 0], run_reach _ _ _ _, by decide, by decide, by decide, by decide⟩
+
+/-- a cascading release: dropping the last reference to the head of a two-element pooled chain releases both -/
+example : ∃ c, Reachable 2 0 3 2 [[.newPool 0, .newPool 1, .link 0 1, .reset 1, .reset 0]] c ∧
+    (c.obj (.node 0 1)).rel = 1 ∧ (c.obj (.node 0 0)).rel = 1 ∧ c.links = [] :=
+  ⟨run 2 0 [[.newPool 0, .newPool 1, .link 0 1, .reset 1, .reset 0]] [0, 0, 0, 0, 0, 0, 0, 0, 0, 0, 0, 0, 0, 0, 0, 0, 0, 0, 0, 0], run_reach _ _ _ _,
+   by decide, by decide, by decide⟩
+
+/-- a non-counting `Ref` does not count, and promoting it does: count 1 → (alias) 1 → (promote) 2 -/
+example : ∃ c, Reachable 2 0 3 2 [[.newPool 0, .weak 1 0, .promote 1]] c ∧ (c.obj (.node 0 1)).count = 2 ∧
+    (c.ths[0]?.map fun th => slotOf th 1) = some (some (.node 0 1, true)) :=
+  ⟨run 2 0 [[.newPool 0, .weak 1 0, .promote 1]] [0, 0, 0, 0, 0, 0], run_reach _ _ _ _, by decide, by decide⟩
+
+/-- **Why the order matters (the defect repaired by /repo commit 3dba531).**  With `SetRef()`'s former order — release
+the old item, store the pointer, then reference the new item — the same pop destroys `second` together with the head
+(the head's `next` member was the only other reference) and then increments the count of the destroyed object: the
+thread's slot is a reference-counting `Ref` to an object that is not alive.  `never_early_slot` is false for
+`machineOld`; this configuration is reachable there. -/
+theorem old_order_counterexample :
+    ∃ c, machineOld.Reach (Cfg.init 1 0 3 2 popProg) c ∧
+      (c.ths[0]?.map fun th => slotOf th 0) = some (some (.heap 1, true)) ∧ (c.obj (.heap 1)).alive = false ∧ (c.obj (.heap 1)).rel = 1 :=
+  ⟨(machineOld.runSched (Cfg.init 1 0 3 2 popProg) ((List.replicate 12 0).map Ev.run)).1,
+   machineOld.reach_runSched Machine.Reach.init _, by decide, by decide, by decide⟩
 
 end Muscle.Props.C10
